@@ -29,7 +29,10 @@ Common == { <<"header", "truncated">>, <<"header", "garbage">>, <<"callId", "mis
             <<"cell.rowLen", "plus1">>, <<"cell.rowLen", "max">>,
             <<"cell.famLen", "plus1">>, <<"cell.famLen", "max">>,
             <<"cellblock", "everyPrefix">>, <<"cellblock", "trailingGarbage">>,
-            <<"cellCount", "plus1">>, <<"cellCount", "minus1">>, <<"cellCount", "huge">> }
+            <<"cellCount", "plus1">>, <<"cellCount", "minus1">>, <<"cellCount", "huge">>,
+            \* counts n for which n * k wraps around 2^32 to a small number (k = plausible per-cell sizes): a size check done in
+            \* 32-bit arithmetic lets them through, and the count is then taken at its word
+            <<"cellCount", "wrap8">>, <<"cellCount", "wrap16">>, <<"cellCount", "wrap24">>, <<"cellCount", "wrap32">>, <<"cellCount", "wrap48">> }
 ScanOnly == { <<"partialFlags", "shorter">>, <<"partialFlags", "longer">>, <<"partialFlags", "missing">> }
 MultiOnly == { <<"index", "zero">>, <<"index", "outOfRange">>, <<"index", "hole">>, <<"index", "duplicate">>,
                <<"result", "omitted">>, <<"result", "both">>, <<"result", "neither">>,
